@@ -186,7 +186,7 @@ def run(ctx, tier: str, seed: int) -> None:
     if quick:
         plan = [(6, 250), (7, 150), (9, 60), (12, 20)]
     else:
-        plan = [(7, 20000), (8, 1200), (9, 800), (10, 500), (11, 300), (12, 200)]
+        plan = [(7, 12000), (8, 800), (9, 500), (10, 300), (11, 200), (12, 150)]
     seen = set()
     for n, count in plan:
         tries = 0
